@@ -92,7 +92,10 @@ Definition check_robust_case (r : routine) (faulted : bool) (impl_cls : string) 
   let b2n (b : bool) := if b then 0%nat else 1%nat in
   let bartiq_or_ok (c : string) := String.eqb c "ok" || String.eqb c "BartiqCompilationError" || String.eqb c "BartiqPreprocessingError" in
   let tie := [b2n (String.eqb (err_class (compile_routine_checked false r)) impl_cls);
-              b2n (Bool.eqb faulted (negb (Nat.eqb (verification_problems r) 0)))] in
+              (* an injected fault is rejected by the model too (by verification, or -- a cycle closed through a through
+                 port, which verify_topology does not see -- by the child ordering); a valid hierarchy has no problem *)
+              if faulted then b2n (String.eqb (err_class (compile_routine_checked false r)) "BartiqCompilationError")
+              else b2n (Nat.eqb (verification_problems r) 0)] in
   let spec := if faulted then [b2n (String.eqb impl_cls "BartiqCompilationError")]
               else (b2n (bartiq_or_ok impl_cls) :: map (fun c => b2n (bartiq_or_ok c)) eval_classes) in
   (tie, spec).
